@@ -267,6 +267,28 @@ impl<'tcx> Cx<'tcx> {
                     Some(ConstValue::ZeroSized) => {
                         s.push_str(",\"zst\":true");
                     }
+                    Some(ConstValue::Scalar(mir::interpret::Scalar::Ptr(ptr, _))) => {
+                        // a pointer constant: name the static it (directly or through one indirection) points to
+                        let (prov, _) = ptr.into_raw_parts();
+                        let aid = prov.alloc_id();
+                        let mut name: Option<String> = None;
+                        match tcx.global_alloc(aid) {
+                            mir::interpret::GlobalAlloc::Static(d) => name = Some(self.path(d)),
+                            mir::interpret::GlobalAlloc::Memory(a) => {
+                                for (_, p2) in a.inner().provenance().ptrs().iter() {
+                                    if let mir::interpret::GlobalAlloc::Static(d) = tcx.global_alloc(p2.alloc_id()) {
+                                        name = Some(self.path(d));
+                                    }
+                                }
+                            }
+                            _ => {}
+                        }
+                        if let Some(n) = name {
+                            let _ = write!(s, ",\"static\":{}", esc(&n));
+                        } else {
+                            let _ = write!(s, ",\"opaque\":{}", esc(&format!("{}", c.const_)));
+                        }
+                    }
                     Some(v @ ConstValue::Slice { .. }) | Some(v @ ConstValue::Indirect { .. }) => {
                         let is_str = match cty.kind() {
                             ty::Ref(_, inner, _) => inner.is_str(),
